@@ -1,12 +1,20 @@
 #!/bin/bash
-# Runs every seeded change against the check of its property (quick tier) and prints a detection matrix.
+# Runs every seeded change against the quick check of its property, prints a detection matrix and records the result in each meta.json.
 cd /verif
 for d in seeded/*/; do
   n=$(basename $d); id=${n%-*}
   [ -f $d/patch.diff ] || continue
-  r=$(tools/try_seed.sh /verif/$d/patch.diff $id 2>&1)
-  if echo "$r" | grep -q "PATCH DOES NOT APPLY"; then echo "$n: patch does not apply to the repaired tree"; continue; fi
-  v=$(echo "$r" | grep -c "^VIOLATION")
-  e=$(echo "$r" | grep -o "exit=[0-9]" | tail -1)
-  echo "$n: violations_reported=$v $e"
+  r=$(LINES_MAX=400 tools/try_seed.sh /verif/$d/patch.diff $id 2>&1)
+  if echo "$r" | grep -q "PATCH DOES NOT APPLY"; then res="patch-does-not-apply"; else
+    v=$(echo "$r" | grep -c "^VIOLATION")
+    e=$(echo "$r" | grep -o "exit=[0-9]" | tail -1)
+    if [ "$v" -gt 0 ]; then res="caught ($v violation keys, $e)"; else res="not-caught ($e)"; fi
+  fi
+  echo "$n: $res"
+  /venv/bin/python - "$d/meta.json" "$res" <<'PY'
+import json, sys
+p, res = sys.argv[1], sys.argv[2]
+m = json.load(open(p)); m["quick_check_of_its_property_on_the_repaired_tree"] = res
+json.dump(m, open(p, "w"), indent=1)
+PY
 done
